@@ -7,6 +7,7 @@
 //	   A1 every (file, message) pair over a fragment alphabet of hostile texts, as a one-annotation set
 //	   A2 every start/end position over {0,1,12}^4 x file kind x type/message/plugin presence
 //	   A3 every ordered tuple (with repetition) of <= 3 annotations from a colliding pool
+//	   A4 every file name of <= 3 name fragments around the .proto extension, and ordered pairs of such names
 //	   each set rendered in all five formats, each rendering parsed back by the independent parsers of
 //	   refannot.go and compared with the reference model (refSortDedupe + agree).
 //	B  the in-process CLI: build [-o], lint, breaking --against, format --exit-code [-d] [-w | -o], each x
@@ -44,15 +45,19 @@ func cpuSeconds() float64 {
 
 func run(r *evid.Run) {
 	r.Rule("A: every annotation set of three explicit spaces (A1 all file x message strings of <=3 fragments over the hostile alphabets, one annotation; " +
-		"A2 all positions {0,1,12}^4 x file kind x type/message/plugin presence; A3 all ordered tuples with repetition of <=3 annotations from a colliding pool) " +
+		"A2 all positions {0,1,12}^4 x file kind x type/message/plugin presence; A3 all ordered tuples with repetition of <=3 annotations from a colliding pool; " +
+		"A4 all file names of <=3 fragments over {a p r o t . / .proto proto} as one-annotation sets and all ordered pairs of the names of <=2 fragments over {a t / .proto} as two-file sets) " +
 		"is rendered by PrintFileAnnotationSet in all 5 formats and each rendering is parsed back by an independent parser and compared with the reference list; " +
 		"B: every subset of <=3 planted problems (quick: <=2 plus the triples over one plant per kind) as a scratch workspace x every command x every --error-format through the in-process CLI, " +
 		"where a command is build, build -o, lint, breaking, or format --exit-code in each of its six output modes (stdout, -d, -w, -d -w, -o, -d -o); " +
 		"the same for every other (input shape, layout) of 7 shapes (dir, file-a, file-a+include_package_files, dir --path a, the same three for b) x 2 layouts (one module, two modules) over every subset of <=2 (quick: <=1) planted problems; " +
 		"plus hostile directory names and operational errors; " +
+		"plus file namings (the .proto files renamed so that their stems end in each letter of the extension or are the word proto; x planted sets naming both files, one file and no file, a file only the package scan reads, file references; all 5 renderings); " +
+		"plus formatting variants (10 kinds/places of a difference between a file and its formatted form: missing final newline, blank lines / blanks behind the last line, blank first line, trailing blank in a line, tab indentation, CRLF, extra blank line inside, empty statement; each in either file, " +
+		"alone x every input shape `buf format` accepts x layout (quick: directory in both layouts, file reference), and next to an unformatted other file (thorough: next to every variant of the other file) x the six output modes of buf format); " +
 		"B3: every cell of resource role (input, --against, -o location, --config, --against-config, --path, --exclude-path) x reference form (directory, .proto file, image as binpb/json/txtpb/yaml/binpb.gz/#format=binpb, archive as tar/tar.gz/zip/#format=tar) " +
 		"x state on disk (good, missing, missing parent, dangling symlink, parent is a file, symlink loop, wrong type, garbage content) x command x workspace (clean, planted L1+K1+U1) x --error-format (quick: text, json). An evaluation is one rendering parsed back (A) or one CLI run (B). " +
-		"Distinct non-trivial = distinct A1 pair with at least one non-'a' fragment, distinct A2 case, distinct A3 tuple of >=2 annotations, distinct (directory name, input shape, layout, planted set) workspace, distinct (operational error, workspace), distinct (role, form, state, command, workspace) resource cell.")
+		"Distinct non-trivial = distinct A1 pair with at least one non-'a' fragment, distinct A2 case, distinct A3 tuple of >=2 annotations, distinct A4 name or name pair, distinct (directory name, input shape, layout, planted set, file naming) workspace, distinct (operational error, workspace), distinct (role, form, state, command, workspace) resource cell.")
 	r.Assume("B3: a resource that is missing, of the wrong type, unreachable or undecodable is not a problem in the user's sources: status 100 is demanded against only where the plant model has no source problem for the command to report independently of the resource; " +
 		"where buf may legitimately cope (creating a missing output directory, a path filter that selects nothing) status 0 is accepted if nothing was printed and the output is in place. " +
 		"Not enumerated: git and module references (network / external git), permission faults (the harness runs as root), stdin/stdout references ('-')")
@@ -62,6 +67,11 @@ func run(r *evid.Run) {
 	r.Assume("`buf format` on a file with a syntax error prints `Failure: <file>:<line>:<col>: syntax error` and exits 1 whatever --error-format says; the property's list of status-100 situations does not include it, so only 'non-zero' is demanded there")
 	r.Assume("plant model of the input shapes: lint and format judge the files the reference selects, the compiler reads those and what they import, breaking judges what the compiler reads (imports included, buf's default), " +
 		"and a file reference with include_package_files=true reads the package statement of every file of the target's module, so a malformed package/import statement there is a problem in the user's sources (status 100, annotations) although the compiler never sees the file")
+	r.Assume("on the workspaces of the formatting-variant dimension only `buf format` is run (the variants are white space and an empty statement: nothing for the compiler, lint or breaking to report); " +
+		"that each variant is a formatting difference is not assumed but observed: `buf format -w` must have rewritten a workspace whose only planted problem is that variant, else the run is incomplete")
+	r.Assume("plain `buf format` of several files prints the concatenation of the formatted files; when that is byte-identical to the concatenation of the sources although the files differ one by one " +
+		"(one file lacks its final newline, the next starts with a blank line), 'status 100 => a difference is shown' is not demanded of the plain mode (the other five modes show it); status 100 is still demanded")
+	r.Assume("JUnit has no file attribute: the file is carried by the testsuite name (file name without a trailing .proto) and by the gcc-style line in each failure message; both must name the file the other formats name")
 	r.Assume("not run: `buf format` with include_package_files (rejected by buf: listed with the operational errors), `buf breaking` with --path (the in-process CLI cannot change its working directory, the absolute --path is outside the --against input), " +
 		"a reference naming b.proto when the planted set deletes it, and the two-module layout when the planted set empties module modb")
 	r.Assume("the github-actions reference parser is the runner's documented algorithm (first '::' ends the properties, split at ',', unescape %25 %0D %0A and, for properties, %3A %2C)")
@@ -95,6 +105,18 @@ func run(r *evid.Run) {
 	if want("A3") {
 		setOrder(r, dst)
 		phase("A3")
+	}
+	if want("A4") {
+		fileNames(r, dst)
+		phase("A4")
+		r.Set("A4_names_with_extension", dst.namesWithExt.Load())
+		r.Set("A4_names_without_extension", dst.namesWithoutExt.Load())
+		r.Set("A4_names_whose_stem_is_empty_or_ends_in_a_character_of_the_extension", dst.namesStemTailInExt.Load())
+		r.Set("A4_two_file_sets", dst.namePairs.Load())
+		r.Set("A4_two_file_sets_sharing_the_name_without_extension", dst.namePairsSameStem.Load())
+		if !r.Expired() && (dst.namesWithExt.Load() == 0 || dst.namesWithoutExt.Load() == 0 || dst.namesStemTailInExt.Load() == 0 || dst.namePairsSameStem.Load() == 0) {
+			r.Incomplete("vacuous: the file-name space has no name with / without the extension, no stem ending in a character of the extension, or no two files sharing the name without extension")
+		}
 	}
 
 	perFormat := map[string]int64{}
@@ -200,6 +222,7 @@ func run(r *evid.Run) {
 	r.Set("B_format_output_runs_that_wrote_different_output", cst.formatWroteOutput.Load())
 	r.Set("B_format_output_modes_compared_with_plain", cst.formatModesCompared.Load())
 	r.Set("B_build_o_images_written", cst.buildOutputWritten.Load())
+	r.Set("B_workspaces_where_the_concatenated_output_of_plain_format_hides_the_difference", cst.formatConcatHides.Load())
 	r.Set("B_F7_runs", cst.f7.Load())
 	r.Set("B_runs_cut_by_a_deadline_not_judged", cst.timedOut.Load())
 	cst.mu.Lock()
@@ -216,7 +239,20 @@ func run(r *evid.Run) {
 	for k, v := range cst.perShapeLayout {
 		perShape[k] = v
 	}
+	perNaming, perNamingJUnit, perVariant := map[string]int{}, map[string]int{}, map[string]int{}
+	for k, v := range cst.perNaming {
+		perNaming[k] = v
+	}
+	for k, v := range cst.perNamingJUnit {
+		perNamingJUnit[k] = v
+	}
+	for k, v := range cst.perVariant {
+		perVariant[k] = v
+	}
 	cst.mu.Unlock()
+	r.Set("B_workspaces_per_file_naming", perNaming)
+	r.Set("B_junit_annotations_with_a_file_compared_per_file_naming", perNamingJUnit)
+	r.Set("B_format_write_runs_that_rewrote_a_workspace_whose_only_problem_is_the_formatting_variant", perVariant)
 	r.Set("B_runs_per_command_and_format", per)
 	r.Set("B_workspaces_per_input_shape_and_layout", perShape)
 	if !r.Expired() && only == "" {
@@ -230,6 +266,18 @@ func run(r *evid.Run) {
 		if cst.viaScanOnly.Load() == 0 || cst.formatRewrote.Load() == 0 || cst.formatWroteOutput.Load() == 0 ||
 			cst.formatModesCompared.Load() == 0 || cst.buildOutputWritten.Load() == 0 {
 			r.Incomplete("vacuous: no run where only the package scan sees the problem / no format -w run that rewrote / no format -o run with different output / no output mode compared / no build -o image")
+		}
+		if want("B1") {
+			for _, nm := range namings {
+				if perNamingJUnit[nm.ID] == 0 {
+					r.Incomplete("vacuous: no junit rendering of an annotation with a file compared under file naming " + nm.ID)
+				}
+			}
+			for _, v := range formatVariants {
+				if perVariant[v.ID] == 0 {
+					r.Incomplete("vacuous: `buf format -w` never rewrote a workspace whose only problem is the formatting variant " + v.ID + " (the formatter accepts it: not a variant)")
+				}
+			}
 		}
 		for _, layout := range layouts {
 			for _, sh := range shapes {
